@@ -50,10 +50,10 @@ theorem revertIter_unchecked {cfg : Cfg} {lpv : Nat} {hd : Blk} {ans : Option Bl
   simp [this]
 
 theorem revertIter_differs {cfg : Cfg} {lpv : Nat} {hd rb : Blk} (hle : hd.num ≤ lpv)
-    (hn : rb.num = hd.num) (hne : rb.hash ≠ hd.hash) :
+    (hn : rb.num = hd.num) (hne : rb.hash ≠ hd.hash) (hok : rb.ok = true) :
     ∃ cont, revertIter cfg lpv hd (some rb) = .revert cont := by
   unfold revertIter
-  simp [hle, hn, hne]
+  simp [hle, hn, hne, hok]
 
 /-- `revertTask` only removes blocks the source does not have, provided the blocks above `lpv`
 (removed without asking) are not the source's. -/
@@ -176,7 +176,7 @@ theorem round_fixpoint {cfg : Cfg} {u : List Blk} {src : Chain} (S : Setting u s
       (hsrc ▸ S.linked).byNumber_none (by rw [(hsrc ▸ S.linked : Linked (H :: T)).nextHeight]; exact Nat.le_refl _)
     unfold round
     simp only [hch, hnone]
-    have : isReverting cfg (H :: T) (nextHeight (H :: T)) (srcLatest (H :: T)) = none := by
+    have : isReverting cfg (H :: T) (nextHeight (H :: T)) (srcLatest (H :: T)) (srcConfirm (H :: T)) = none := by
       unfold isReverting srcLatest
       simp [nextHeight, Linked.byNumber_head]
     simp [this]
@@ -274,7 +274,7 @@ theorem round_revert {cfg : Cfg} {u : List Blk} {src : Chain} (S : Setting u src
           have : mismatchLpv cfg b = b.num - 1 := by
             unfold mismatchLpv; simp only [hcf, if_true]; exact sub64_of_le (by omega) (by omega)
           rw [this, hx]
-          exact revertIter_differs (by omega) hxn hxne
+          exact revertIter_differs (by omega) hxn hxne (S.ok x hxm)
         | false =>
           have hm : mismatchLpv cfg b = sub64 b.num 2 := by unfold mismatchLpv; simp [hcf]
           rw [hm]
@@ -284,7 +284,7 @@ theorem round_revert {cfg : Cfg} {u : List Blk} {src : Chain} (S : Setting u src
               have : b.num = 1 := by omega
               rw [this]; decide
             rw [e, hx]
-            exact revertIter_differs (by unfold U64; omega) hxn hxne
+            exact revertIter_differs (by unfold U64; omega) hxn hxne (S.ok x hxm)
     | none =>
       have hlen := byNumber_none_len S.linked hfetch
       cases hsrc : src with
@@ -315,14 +315,17 @@ theorem round_revert {cfg : Cfg} {u : List Blk} {src : Chain} (S : Setting u src
           have e2 : x = lh := hl.eq_of_num hx hlhm (by omega)
           exact hne (by rw [← e1, ← e2])
         have hcmp : (if Sh.num < H.num then Sh.num else H.num) = Sh.num := by split <;> omega
-        have hir : isReverting cfg (H :: T) (nextHeight (H :: T)) (srcLatest (Sh :: St)) =
+        have hir : isReverting cfg (H :: T) (nextHeight (H :: T)) (srcLatest (Sh :: St))
+              (srcConfirm (Sh :: St)) =
             some (if cfg.zeroGuard && Sh.num == 0 then 0 else sub64 Sh.num 1) := by
-          unfold isReverting srcLatest
+          unfold isReverting srcLatest srcConfirm
           have h1 : ¬ Sh.num > H.num := by omega
           simp only [List.head?_cons, Option.map_some, nextHeight, bne_self_eq_false,
             Bool.false_eq_true, if_false, h1, hcmp, hlh]
           have : (Sh.hash == lh.hash) = false := by simpa using hne
-          simp only [this, Bool.false_eq_true, if_false]
+          have hc : confirmed (some Sh) ⟨Sh.num, Sh.hash⟩ = true := by
+            simp [confirmed, S.ok Sh hShm]
+          simp only [this, Bool.false_eq_true, if_false, hc, Bool.not_true, Bool.and_false]
           split <;> rfl
         refine ⟨(if cfg.zeroGuard && Sh.num == 0 then 0 else sub64 Sh.num 1), ?_, ?_, ?_⟩
         · unfold round
@@ -349,7 +352,7 @@ theorem round_revert {cfg : Cfg} {u : List Blk} {src : Chain} (S : Setting u src
               rw [this]; simp only [if_true]
               by_cases hH0 : H.num = 0
               · rw [hH0, hg]
-                apply revertIter_differs (by omega) (by omega)
+                refine revertIter_differs (by omega) (by omega) ?_ (S.ok g hgm)
                 intro eh
                 have : g = H := S.inj g (S.sub g hgm) H (hsubc H (List.mem_cons_self ..)) eh
                 exact hHnot (this ▸ hgm)
@@ -367,7 +370,7 @@ theorem round_revert {cfg : Cfg} {u : List Blk} {src : Chain} (S : Setting u src
               have hc1' : T.length + 1 ≤ 1 := hc1
               have hH0 : H.num = 0 := by omega
               rw [hH0, hg]
-              apply revertIter_differs (by unfold U64; omega) (by omega)
+              refine revertIter_differs (by unfold U64; omega) (by omega) ?_ (S.ok g hgm)
               intro eh
               have : g = H := S.inj g (S.sub g hgm) H (hsubc H (List.mem_cons_self ..)) eh
               exact hHnot (this ▸ hgm)
